@@ -26,6 +26,7 @@ fn fixed_projects() -> Vec<Project> {
     v.extend(artifact_fidelity_projects());
     v.extend(file_order_projects());
     v.extend(entry_point_projects());
+    v.extend(size_projects());
     v
 }
 
